@@ -42,7 +42,12 @@ Step(x) ==
                /\ open' = IF good THEN [q \in DOMAIN open \cup {x.qi} |-> IF q = x.qi THEN r.bit ELSE open[q]] ELSE open
                /\ viol' = viol \o Bad(cs)
                /\ nchk' = nchk + Len(cs)
-      [] x.op = "close" ->
+      [] x.op = "close" /\ x.qi \notin DOMAIN open ->
+            \* only after an earlier disagreement (an open the model expected to fail succeeded in the code)
+            /\ UNCHANGED <<s, open>>
+            /\ viol' = viol \o Bad(<< <<"model-and-code-agree-on-open-queries", FALSE>> >>)
+            /\ nchk' = nchk + 1
+      [] x.op = "close" /\ x.qi \in DOMAIN open ->
             LET r == Unlock(s, open[x.qi], CM)
                 cs == << <<"release-exactly-once-never-fails", ~x.res.panic /\ r.ok>>,
                          <<"locked-iff-query-open", x.locked = IsLocked(r.s)>> >>
